@@ -1,0 +1,59 @@
+//go:build verif
+
+package keeper
+
+// Contracts for the deductive checker in /verif (comment-only; compiled only with -tags verif).
+
+/*@
+alias EpochInfo github.com/haqq-network/haqq/x/epochs/types.EpochInfo
+alias EpochList []github.com/haqq-network/haqq/x/epochs/types.EpochInfo
+sort EpHas = (Array Str Bool)
+sort EpVal = (Array Str EpochInfo)
+
+// abstract view of the epochs store (prefix 0x00 | identifier -> EpochInfo): domain and values
+world ep_has EpHas
+world ep_val EpVal
+
+specfunc ep_none() EpHas = smt "((as const (Array Str Bool)) false)"
+specfunc ep_put_has(h EpHas, k string) EpHas = smt "(store h k true)"
+specfunc ep_put_val(m EpVal, k string, e EpochInfo) EpVal = smt "(store m k e)"
+// two store views answer every GetEpochInfo / AllEpochInfos query identically
+specfunc ep_same(h1 EpHas, v1 EpVal, h2 EpHas, v2 EpVal) bool = forall id string :: h1[id] == h2[id] && (h1[id] ==> v1[id] == v2[id])
+// store invariant: every entry is stored under its own identifier (SetEpochInfo is the only writer)
+specfunc ep_inv(h EpHas, v EpVal) bool = forall id string :: h[id] ==> v[id].Identifier == id
+
+// the store obtained from (h, m) by SetEpochInfo(l[0]), ..., SetEpochInfo(l[n-1])   ("fromList")
+ghost func ep_ins_has(h EpHas, l EpochList, n int) EpHas
+    def ite(n <= 0, h, ep_put_has(ep_ins_has(h, l, n-1), l[n-1].Identifier))
+ghost func ep_ins_val(m EpVal, l EpochList, n int) EpVal
+    def ite(n <= 0, m, ep_put_val(ep_ins_val(m, l, n-1), l[n-1].Identifier, l[n-1]))
+
+// the key-ordered enumeration of a store view ("listOf"); str_lt (lib 60_genesis.spec) is the byte order of store keys
+uf ep_list(h EpHas, m EpVal) EpochList
+specfunc ep_canon(l EpochList) bool = forall i int, j int :: 0 <= i && i < j && j < len(l) ==> str_lt(l[i].Identifier, l[j].Identifier)
+
+// ---- trusted axioms about the enumeration (mathematical facts about iterating a prefix store in key order)
+// A-ep-members: the enumeration lists stored values, in strictly ascending key order
+axiom ep_list: forall h EpHas, m EpVal :: ep_inv(h, m) ==> ep_canon(ep_list(h, m)) && len(ep_list(h, m)) >= 0
+        && (forall i int :: 0 <= i && i < len(ep_list(h, m)) ==> h[ep_list(h, m)[i].Identifier] && m[ep_list(h, m)[i].Identifier] == ep_list(h, m)[i])
+// A-ep-fromList-listOf: inserting the enumeration of a store into the empty store gives the same view
+axiom ep_list: forall h EpHas, m EpVal, m0 EpVal :: ep_inv(h, m) ==>
+        ep_same(ep_ins_has(ep_none(), ep_list(h, m), len(ep_list(h, m))), ep_ins_val(m0, ep_list(h, m), len(ep_list(h, m))), h, m)
+// A-ep-listOf-fromList: enumerating the store built from a canonical (strictly key-sorted) list gives that list back
+axiom ep_list: forall l EpochList, m0 EpVal :: ep_canon(l) ==>
+        seqeq(ep_list(ep_ins_has(ep_none(), l, len(l)), ep_ins_val(m0, l, len(l))), l)
+
+// ---- leaf store accessors: assumed contracts over the abstract store view
+func (Keeper).SetEpochInfo
+    trusted
+    modifies ep_has, ep_val
+    ensures ep_has == ep_put_has(old(ep_has), epoch.Identifier) && ep_val == ep_put_val(old(ep_val), epoch.Identifier, epoch)
+func (Keeper).GetEpochInfo
+    trusted
+    ensures result.1 == ep_has[identifier]
+    ensures result.1 ==> result.0 == ep_val[identifier]
+// iteration helper (prefix iterator + codec): returns the key-ordered enumeration of the store
+func (Keeper).AllEpochInfos
+    trusted
+    ensures result == ep_list(ep_has, ep_val)
+@*/
